@@ -17,6 +17,7 @@ package main
 
 import (
 	"fmt"
+	"os"
 	"strings"
 	"time"
 
@@ -44,6 +45,7 @@ type c13Case struct {
 	shape      string   // top-level shape of the extracted CUE (skeleton cases only)
 	flags      string   // facts about the extracted CUE used for class tags (c13AstFlags)
 	noGen      bool     // a confirmation probe: no reverse direction
+	probe      bool     // a confirmation probe: tighter CPU limit
 
 	// filled by the harness after consulting the oracle (c13_confirm.go)
 	judged         []c13Judged
@@ -247,7 +249,15 @@ func runC13(c *Cfg) {
 	// cue.Context every few cases; a case that exceeds the time limit (the evaluator can take
 	// exponential time on nested disjunctions) gets its worker killed and is counted as
 	// `timeout`, never as a finding.
+	tPhase := time.Now()
+	phase := func(name string) {
+		if os.Getenv("C13_DEBUG") != "" {
+			fmt.Fprintf(os.Stderr, "PHASE %s %.1fs\n", name, time.Since(tPhase).Seconds())
+		}
+		tPhase = time.Now()
+	}
 	c13RunWorkers(c, cases)
+	phase("evaluate")
 
 	// consult the oracle, then confirm the root cause of every forward divergence by a targeted
 	// transformation evaluated on the real importer (c13_confirm.go)
@@ -256,8 +266,11 @@ func runC13(c *Cfg) {
 		c.Count("oracle-unavailable")
 	} else {
 		c13Judge(oracle, cases)
+		phase("judge")
 		c13Confirm(c, oracle, cases)
+		phase("confirm-forward")
 		c13ConfirmReverse(c, oracle, cases)
+		phase("confirm-reverse")
 	}
 
 	// emit in generation order (deterministic)
